@@ -17,6 +17,7 @@ TRUSTED = [
     "divisions in binary64); tied by differential execution with the value as an exact ratio",
 ]
 ASSUMPTIONS = ["arguments respect the typed overloads (both ticks, both timestamps, or omitted); mixed forms hit an assert and are not generated"]
+# truth: note times are the parsed chart's own (C01 settles them); tick bounds are resolved by the Lean model's hint-free query
 RULE = ("tracks × tempo maps × (start, end) as ticks / timestamps / omitted, with bounds coinciding exactly with note times and "
         "with each other, absent tracks, note-less tracks, non-positive intervals; promised: value = count of notes with "
         "start time in [S, E] divided by (E−S) seconds within 3·2⁻⁵³ relative error, ValueError otherwise; non-trivial = ≥ 1 "
@@ -30,49 +31,69 @@ def slice(ctx: fw.Ctx) -> fw.Outcome:
     prof = gen.Profile(max_tracks=2, max_groups=10, garbage=0.0, unknown_sections=0.0, meta_fields=0.0, exotic_pad=0.0, exotic_digits=0.0, max_tempo=4)
     reqs, meta = [], []
     ins, dif = impl.enums()
-    def evaluate(c, be, real, nts, R, i, d, form, args, sb, eb, history=None):
+    pending = []
+
+    def evaluate(c, be, real, nts, R, i, d, form, args, sb, eb, history=None, src=None):
+        """make the call now (in this process state); the promise is computed afterwards, with tick bounds resolved by the
+        model's hint-free query — never by asking the tempo map under test"""
         try:
             v = c.notes_per_second(ins[i], dif[d], *args)
             x = impl.rat(float(v))
         except Exception as ex:  # noqa: BLE001
             x = impl.err_name(ex)
-        # truth from the real chart's own note times (C01 settles the times themselves)
-        if real is None or not real.note_events:
-            want = "E ValueError"
-        else:
+        ends = [n.end_timestamp for n in real.note_events] if real is not None else []
+        pending.append(dict(x=x, has=bool(real is not None and real.note_events), nts=list(nts), ends=ends, args=args, R=R, i=i, d=d, form=form,
+                            sb=sb, eb=eb, history=history, res=src.res, tempo=list(src.tempo)))
+
+    def settle():
+        need = sorted({(p["res"], tuple(p["tempo"]), a) for p in pending for a in p["args"] if isinstance(a, int)})
+        rep = driver.run_parallel([f"tsat {res} {','.join(f'{t}:{n}' for t, n in tempo)} {tick} 0" for res, tempo, tick in need])
+        table = dict(zip(need, rep))
+        for p in pending:
+            x, args, R, i, d, sb, eb, form = p["x"], p["args"], p["R"], p["i"], p["d"], p["sb"], p["eb"], p["form"]
+            nts = p["nts"]
+
             def bound(v, default):
                 if v is None:
                     return default
-                return be.timestamp_at_tick_no_optimize_return(v) if isinstance(v, int) else v
-            try:
-                S = bound(args[0] if len(args) > 0 else None, timedelta(0))
-                E = bound(args[1] if len(args) > 1 else None, max(n.end_timestamp for n in real.note_events))
-                D = (E - S) // US
-                if D <= 0:
-                    want = "E ValueError"
-                else:
-                    cnt = sum(1 for t in nts if S <= t <= E)
-                    want = Fraction(cnt * 10**6, D)
-            except ValueError:
+                if isinstance(v, int):
+                    r = table[(p["res"], tuple(p["tempo"]), v)]
+                    if r.startswith(("E ", "MAP ")):
+                        raise ValueError(r)
+                    return timedelta(microseconds=int(r.split(" ")[0]))
+                return v
+            if not p["has"]:
                 want = "E ValueError"
-        rp = {"op": "nps", "text": R.text, "i": i, "d": d, "start": sb, "end": eb}
-        if history:
-            rp["history"] = history  # calls made earlier in the same process, replayed first
-        inside = isinstance(want, Fraction) and want > 0
-        out.case(fw.h(rp), inside, {"call": [i, d, sb, eb], "value": x} if inside else None, tags=[form, "err" if x.startswith("E") else "value"])
-        reqs.append(f"nps {driver.cps(R.text)} {i} {d} {sb} {eb}")
-        meta.append((rp, x))
-        if isinstance(want, str):
-            if x != want:
-                out.violation("nps-" + fw.h(rp), f"notes_per_second({i},{d},{sb},{eb}) = {x}, promised {want}", rp, observed=x, promised=want)
-        else:
-            if x.startswith("E "):
-                out.violation("nps-" + fw.h(rp), f"notes_per_second({i},{d},{sb},{eb}) raised {x}, promised {float(want):.6f}", rp, observed=x, promised=str(want))
             else:
-                got = Fraction(x)
-                if abs(got - want) > want * Fraction(3, 2**53):
-                    out.violation("nps-" + fw.h(rp), f"notes_per_second({i},{d},{sb},{eb}) = {float(got):.9f}, count/seconds = {float(want):.9f}",
-                                  {**rp, "want": str(want)}, observed=str(got), promised=str(want))
+                try:
+                    S = bound(args[0] if len(args) > 0 else None, timedelta(0))
+                    E = bound(args[1] if len(args) > 1 else None, max(p["ends"]))
+                    D = (E - S) // US
+                    if D <= 0:
+                        want = "E ValueError"
+                    else:
+                        cnt = sum(1 for t in nts if S <= t <= E)
+                        want = Fraction(cnt * 10**6, D)
+                except ValueError:
+                    want = "E ValueError"
+            rp = {"op": "nps", "text": R.text, "i": i, "d": d, "start": sb, "end": eb}
+            if p["history"]:
+                rp["history"] = p["history"]  # calls made earlier in the same process, replayed first
+            inside = isinstance(want, Fraction) and want > 0
+            out.case(fw.h(rp), inside, {"call": [i, d, sb, eb], "value": x} if inside else None, tags=[form, "err" if x.startswith("E") else "value"])
+            reqs.append(f"nps {driver.cps(R.text)} {i} {d} {sb} {eb}")
+            meta.append((rp, x))
+            if isinstance(want, str):
+                if x != want:
+                    out.violation("nps-" + fw.h(rp), f"notes_per_second({i},{d},{sb},{eb}) = {x}, promised {want}", rp, observed=x, promised=want)
+            else:
+                if x.startswith("E "):
+                    out.violation("nps-" + fw.h(rp), f"notes_per_second({i},{d},{sb},{eb}) raised {x}, promised {float(want):.6f}", rp, observed=x, promised=str(want))
+                else:
+                    got = Fraction(x)
+                    if abs(got - want) > want * Fraction(3, 2**53):
+                        out.violation("nps-" + fw.h(rp), f"notes_per_second({i},{d},{sb},{eb}) = {float(got):.9f}, count/seconds = {float(want):.9f}",
+                                      {**rp, "want": str(want)}, observed=str(got), promised=str(want))
 
     for _ in range(ctx.n(60, 6000)):
         src = gen.rand_src(rng, prof)
@@ -116,7 +137,7 @@ def slice(ctx: fw.Ctx) -> fw.Outcome:
                 ta = rng.choice([timedelta(0), timedelta(seconds=rng.randint(0, 100))])
                 tb = ta + timedelta(days=rng.choice([1, 1, 2, 3]), seconds=rng.choice([0, 0, 5, 4000]))
                 args, sb, eb = (ta, tb), f"u{ta // US}", f"u{tb // US}"
-            evaluate(c, be, real, nts, R, i, d, form, args, sb, eb)
+            evaluate(c, be, real, nts, R, i, d, form, args, sb, eb, src=src)
             if form in ("tick", "ticks"):
                 tick_calls.append((i, d, form, args, sb, eb))
         # the same tick bounds on a twin chart (same notes, every tempo doubled) in the same process: an answer remembered
@@ -132,7 +153,8 @@ def slice(ctx: fw.Ctx) -> fw.Outcome:
                     real2 = c2.instrument_tracks.get(ins[i], {}).get(dif[d])
                     nts2 = [n.timestamp for n in real2.note_events] if real2 else []
                     evaluate(c2, c2.sync_track.bpm_events, real2, nts2, R2, i, d, form + "-twin", args, sb, eb,
-                             history=[{"text": R.text, "i": i, "d": d, "start": sb, "end": eb}])
+                             history=[{"text": R.text, "i": i, "d": d, "start": sb, "end": eb}], src=src2)
+    settle()
     mod = driver.run_parallel(reqs)
     for (rp, x), m in zip(meta, mod):
         out.traces += 1
